@@ -411,7 +411,7 @@ theorem getRoot_ok_stages (H : Hasher D) (p : BatchProof D) (idxs : List Nat) (r
         | some r' =>
           rw [hg] at h
           injection h with h; subst h
-          refine ⟨?_, ?_, ?_, hd, imap, v, ptrs, K1, v', ptrs', rfl, ?_, hl, hls, ?_, rfl⟩
+          refine ⟨?_, ?_, ?_, hd, imap, v, ptrs, K1, v', ptrs', rfl, ?_, hl, hls, ?_, hg⟩
           · intro he; subst he; simp at h0
           · simp only [maxPaths] at h1; omega
           · simpa using h2
@@ -433,7 +433,7 @@ theorem getRoot_binding (H : Hasher D) (inj : MergeInj H) (val : Nat → D) (p :
   obtain ⟨d0, hd0⟩ : ∃ d0, p.depth = d0 + 1 := ⟨p.depth - 1, by omega⟩
   have hp := two_pow_succ' d0
   have hpos := Nat.two_pow_pos d0
-  rw [hd0] at hp
+  rw [← hd0] at hp
   -- the positions of the second level
   have hK1asc : Asc K1 := by
     rw [j1]
@@ -486,5 +486,56 @@ theorem getRoot_binding (H : Hasher D) (inj : MergeInj H) (val : Nat → D) (p :
     rw [pb j hgj, eb]
     congr 2
     rw [hd0] at hir ⊢; omega
+
+end WinterProofs.C10
+
+namespace WinterProofs.C10
+open Model.Merkle
+
+variable {D : Type}
+
+/-- the valuation of heap positions given by a tree -/
+def treeVal (H : Hasher D) (t : Tree D) (j : Nat) : D := (hval t j).getD H.dflt
+
+theorem treeVal_wf (H : Hasher D) (t : Tree D) (d : Nat) (wf : TreeWF H t d) : ValWF H (treeVal H t) d := by
+  intro j h1 h2
+  obtain ⟨a, b, ha, hb, hm⟩ := wf.wf j h1 h2
+  have : hval t j = some (H.merge a b) := by rw [hval_lt (by rw [wf.nlen]; exact h2)]; exact hm
+  simp [treeVal, this, ha, hb]
+
+theorem treeVal_leaf (H : Hasher D) (t : Tree D) (d : Nat) (wf : TreeWF H t d) (i : Nat) (hi : i < 2 ^ d) :
+    some (treeVal H t (2 ^ d + i)) = t.leaves[i]? := by
+  have hil : i < t.leaves.length := by rw [wf.llen]; exact hi
+  have : hval t (2 ^ d + i) = t.leaves[i]? := by
+    rw [hval_ge (by rw [wf.nlen]; omega), wf.nlen]; congr 1; omega
+  simp [treeVal, this, List.getElem?_eq_getElem hil]
+
+theorem treeVal_root (H : Hasher D) (t : Tree D) (d : Nat) (wf : TreeWF H t d) (root : D)
+    (h : t.nodes[1]? = some root) : treeVal H t 1 = root := by
+  have h1 : 1 < t.nodes.length := by
+    rcases Nat.lt_or_ge 1 t.nodes.length with h' | h'
+    · exact h'
+    · rw [List.getElem?_eq_none h'] at h; cases h
+  simp [treeVal, hval_lt h1, h]
+
+theorem verifyBatch_ok (H : Hasher D) [DecidableEq D] (root : D) (idxs : List Nat) (p : BatchProof D)
+    (h : verifyBatch H root idxs p = .ok ()) : getRoot H p idxs = .ok root := by
+  unfold verifyBatch at h
+  cases hg : getRoot H p idxs with
+  | err e => rw [hg] at h; cases h
+  | panic e => rw [hg] at h; cases h
+  | ok r =>
+    rw [hg] at h
+    simp only [Res.ok_bind] at h
+    split at h
+    · cases h
+    · rename_i hne
+      congr 1
+      exact (Decidable.of_not_not hne).symm
+
+theorem verifyBatch_of_getRoot (H : Hasher D) [DecidableEq D] (root : D) (idxs : List Nat) (p : BatchProof D)
+    (h : getRoot H p idxs = .ok root) : verifyBatch H root idxs p = .ok () := by
+  unfold verifyBatch
+  rw [h]; simp
 
 end WinterProofs.C10
